@@ -129,7 +129,7 @@ func traverseNodesWithArrayIndices(context Context, indicesToTraverse []*Candida
 }
 
 func traverseArrayIndices(context Context, matchingNode *CandidateNode, indicesToTraverse []*CandidateNode, prefs traversePreferences) (*list.List, error) { // call this if doc / alias like the other traverse
-	if matchingNode.Tag == "!!null" && !context.DontAutoCreate && !prefs.DontAutoCreate {
+	if matchingNode.Tag == "!!null" && !context.DontAutoCreate {
 		log.Debugf("OperatorArrayTraverse got a null - turning it into an empty array")
 		// auto vivification
 		matchingNode.Tag = ""
@@ -195,7 +195,7 @@ func traverseArrayWithIndices(context Context, node *CandidateNode, indices []*C
 		}
 		indexToUse := index
 		contentLength := len(node.Content)
-		if (context.DontAutoCreate || prefs.DontAutoCreate) && contentLength <= index {
+		if context.DontAutoCreate && contentLength <= index {
 			// read-only: report null without padding the array
 			valueNode := node.CreateChild()
 			valueNode.Kind = ScalarNode
